@@ -248,10 +248,10 @@ def r_C25(root):
     def fqn(ns):
         env = {"self._namespace_stack": ["x", ns], fq.args.args[1].arg: {".__name__": "Cls"}}
         return pyeval.run_block(fq.body, env)
-    try: gotq = [fqn("pkg.mod"), fqn("__base__"), fqn(None)]
+    try: gotq = [fqn("pkg.mod"), fqn("__base__"), fqn(None), fqn("base"), fqn("a"), fqn("_"), fqn("__base__x")]
     except pyeval.Unsupported as e: raise AnalysisError("TextXMetaModel._cls_fqn: %s" % e)
-    if gotq != ["pkg.mod.Cls", "Cls", "Cls"]:
-        out.append(Finding("C25", "C25.d", rel, "TextXMetaModel._cls_fqn", "fqn of Cls in pkg.mod / __base__ / None -> %s" % gotq, "qualified class name is %s, documented: namespace + '.' + name, bare name in the base namespace" % gotq))
+    if gotq != ["pkg.mod.Cls", "Cls", "Cls", "base.Cls", "a.Cls", "_.Cls", "__base__x.Cls"]:
+        out.append(Finding("C25", "C25.d", rel, "TextXMetaModel._cls_fqn", "fqn of Cls in pkg.mod / __base__ / None / base / a / _ / __base__x -> %s" % gotq, "qualified class name is %s, documented: namespace + '.' + name, bare name in the base namespace" % gotq))
     return inst, out
 ALL = [r_C26a, r_C26bcdef, r_C21a, r_C04, r_C25]
 if __name__ == "__main__":
